@@ -140,6 +140,39 @@ func (r *Rewriter) MarkStructCopied(name string) {
 	}
 }
 
+// GetTypeDecl returns the source of the declaration of type name in file filename, including
+// its doc comment, and marks it as copied so it is not repeated in RemainingSource. It returns
+// "" if the file does not declare the type on its own (not at all, or inside a grouped
+// declaration).
+func (r *Rewriter) GetTypeDecl(filename, name string) string {
+	filename, err := filepath.Abs(filename)
+	if err != nil {
+		panic(err)
+	}
+	for _, f := range r.pkg.Syntax {
+		if r.pkg.Fset.Position(f.Pos()).Filename != filename {
+			continue
+		}
+		for _, d := range f.Decls {
+			d, isGen := d.(*ast.GenDecl)
+			if !isGen || d.Tok != token.TYPE || len(d.Specs) != 1 {
+				continue
+			}
+			spec, isTypeSpec := d.Specs[0].(*ast.TypeSpec)
+			if !isTypeSpec || spec.Name.Name != name {
+				continue
+			}
+			r.copied[d] = true
+			start := d.Pos()
+			if d.Doc != nil {
+				start = d.Doc.Pos()
+			}
+			return r.getSource(start, d.End())
+		}
+	}
+	return ""
+}
+
 func (r *Rewriter) ExistingImports(filename string) []Import {
 	filename, err := filepath.Abs(filename)
 	if err != nil {
